@@ -47,7 +47,8 @@ def cases(tier, seed):
     cs = []
     B = 12
     for i in range(0, len(texts), B):
-        cs.append({'t': 'texts', 'texts': texts[i:i + B], 'eol': ['\n', '\r\n'][(i // B) % 2], 'final': (i // B) % 3 != 0, 'hash': list(sigwork.HASHES)[(i // B) % 6],
+        cs.append({'t': 'texts', 'texts': texts[i:i + B], 'eol': ['\n', '\r\n'][(i // B) % 2], 'text_eol': ['\n', '\n', '\r\n'][(i // B) % 3], 'final': (i // B) % 3 != 0,
+                   'hash': list(sigwork.HASHES)[(i // B) % 6],
                    'signers': SIGNERS[(i // B) % 4:(i // B) % 4 + 1 + ((i // B) % 5 == 0)]})
     if gpgx.available():
         cs.append({'t': 'gpg', 'n': 12 if tier == 'quick' else 60, 'seed': seed})
@@ -108,8 +109,12 @@ def _texts(ctx, d, pgpy):
     mats = [pool.mat(s) for s in d['signers']]
     halg = getattr(HashAlgorithm, d['hash'])
     for lines in d['texts']:
-        text = '\n'.join(lines) + ('\n' if d['final'] else '')
+        teol = d.get('text_eol', '\n')
+        text = teol.join(lines) + (teol if d['final'] else '')
+        norm = lambda t_: t_.replace('\r\n', '\n')      # a text given with CRLF line endings may come back with LF: same text, other line-ending form
         ctx.count('texts')
+        if teol != '\n':
+            ctx.count('texts_with_crlf_inside')
         special = any(needs_escape(l) or l != l.rstrip(' \t') or l == '' or not l.isascii() for l in lines)
         if special:
             ctx.nontrivial(hx(__import__('hashlib').sha1(text.encode()).digest()[:8]))
@@ -125,7 +130,7 @@ def _texts(ctx, d, pgpy):
             ctx.fail('cleartext-message-cannot-be-written', dict(where, err='%s: %s' % (type(e).__name__, str(e)[:120])))
             out = None
         if out is not None:
-            wire_text = out.replace('\n', d['eol'])
+            wire_text = out.replace('\r\n', '\n').replace('\n', d['eol']) if (teol != '\n' and d['eol'] != '\n') else out.replace('\n', d['eol']) if teol == '\n' else out
             # dash-escaping of the written text
             body_lines = out.split('\n')
             try:
@@ -149,7 +154,7 @@ def _texts(ctx, d, pgpy):
                     ctx.fail('cleartext-message-cannot-be-read-back', dict(where, form=form, err='%s: %s' % (type(e).__name__, str(e)[:120])))
                     continue
                 ctx.count('pgpy_made_read_back')
-                if got != text:
+                if norm(got) != norm(text) or (teol == '\n' and got != text):
                     ctx.fail('text-read-back-differs', dict(where, form=form, got=got[:200]))
                 if sorted(hx(bytes(s)) for s in m2.signatures) != sorted(hx(bytes(s)) for s in m.signatures):
                     ctx.fail('signatures-lost-or-changed', dict(where, form=form))
@@ -160,7 +165,7 @@ def _texts(ctx, d, pgpy):
             # independent implementation reads and verifies PGPy's output
             try:
                 rlines, rres, rd = ref_verify_cleartext(wire_text, mats)
-                if '\n'.join(rlines) != text:
+                if '\n'.join(rlines) != norm(text):
                     ctx.fail('reference-reads-different-text', dict(where, got='\n'.join(rlines)[:200]))
                 if not rres or not all(ok for ok, _ in rres):
                     # differential classification: would it verify if trailing blanks were signed?
@@ -172,7 +177,7 @@ def _texts(ctx, d, pgpy):
                 ctx.fail('reference-cannot-read-pgpy-cleartext-message', dict(where, err=str(e)))
         # ---------------- direction B: the reference writes, PGPy reads and verifies
         ctx.count('evaluations')
-        rtext = ref_make_cleartext(text, mats, sigwork.HASHES[d['hash']], d['eol'])
+        rtext = ref_make_cleartext(norm(text), mats, sigwork.HASHES[d['hash']], d['eol'])
         # sanity of the reference on its own output
         if not all(ok for ok, _ in ref_verify_cleartext(rtext, mats)[1]):
             ctx.count('case_crashes')
@@ -183,7 +188,7 @@ def _texts(ctx, d, pgpy):
         except Exception as e:
             ctx.fail('reference-cleartext-message-cannot-be-read', dict(where, err='%s: %s' % (type(e).__name__, str(e)[:120])))
             continue
-        if got != text:
+        if got != norm(text):
             ctx.fail('text-of-reference-message-read-differently', dict(where, got=got[:200]))
         good = True
         for pub in pubs:
